@@ -6,6 +6,7 @@ import re
 import sys
 
 from . import astwalk
+from . import names
 
 VERIF = os.path.dirname(os.path.dirname(os.path.abspath(__file__)))
 REPO = os.environ.get("COCLS_REPO", "/repo")
@@ -71,21 +72,41 @@ def guarded_fields(w, cls):
     return out
 
 
+def alloc_owners(w, f):
+    """the function an allocation-capable construct found in `f` is charged to.  A private / protected member function that is called
+    from exactly ONE function (calls matched by NAME over all walked functions, whatever their class - an over-approximation of the
+    callers; any number of call sites inside that one function) is a named block of that function: the program is the one with the
+    helper's body written at its call sites, nobody else can execute it, and its caller executes the construct whenever the helper
+    does.  So the construct is charged to that caller (transitively): moving a `new[]` into a private helper, or back, leaves the table
+    unchanged.  Public functions, free functions, constructors / destructors, helpers with several callers or with none that the walk
+    sees answer for themselves, and the whitelist of Props/C20.lean decides."""
+    seen = {id(f)}
+    while getattr(f, "access", "public") != "public" and f.cls and not f.ctor_dtor:
+        callers = [g for g in w.fns if g is not f and any(cn == f.fn for cn, _lk, _s in g.calls)]
+        if len(callers) != 1 or id(callers[0]) in seen:
+            break
+        f = callers[0]
+        seen.add(id(f))
+    return [f]
+
+
 def regenerate():
     objs = astwalk.dump_ast(REPO, WORK)
-    w = astwalk.Walker(objs).run()
-    summary = {}
+    w = astwalk.Walker(names.canonicalise(objs)).run()     # private names -> the names of the validated tree (extract/names.py)
+    summary = {"renamed": names.last_summary()}
 
     # ---- atomic sites ------------------------------------------------------------------------
     rows = []
     for f in w.fns:
-        for i, s in enumerate(f.sites):
+        # operations on inert diagnostic atomics (astwalk.Walker.classify_inert) are left out: reported in the summary instead
+        for i, s in enumerate([s for s in f.sites if not s.get("inert")]):
             rows.append("  { cls := %s, fn := %s, idx := %d, kind := %s, obj := %s, succ := %s, fail := %s, inAssert := %s }" % (
                 lstr(f.cls), lstr(f.fn), i, okind(s["kind"]), lstr(s["obj"]), order(s["succ"]), order(s["fail"]), lbool(s["inAssert"])))
     text = ("import CoclsModel.Orders\n/-! GENERATED by extract/extract.py from /repo/src/cocls/*.h — do not edit. -/\n"
             "namespace Cocls.Generated\nopen Cocls\n\ndef atomicSites : List Site := [\n" + ",\n".join(rows) + "\n]\n\nend Cocls.Generated\n")
     write(os.path.join(GEN, "AtomicSites.lean"), text)
     summary["atomic_sites"] = len(rows)
+    summary["inert_atomics"] = getattr(w, "inert_report", [])
 
     # ---- lock tables ---------------------------------------------------------------------------
     rows = []
@@ -102,6 +123,8 @@ def regenerate():
                 key = (cls_name, f.fn)
                 if key in helper_locked or f.locks or f.ctor_dtor:
                     continue
+                if getattr(f, "access", "private") == "public":
+                    continue        # anybody may call a public function: the call sites inside the class say nothing about its lock state
                 sites = [(g, lk) for g in fs for (cn, lk, _s) in g.calls if cn == f.fn and g is not f]
                 if sites and all(lk or getattr(g, "lk_helper", False) or (cls_name, g.fn) in helper_locked for g, lk in sites):
                     helper_locked.add(key)
@@ -174,7 +197,8 @@ def regenerate():
             for a in f.allocs:
                 if a == "placement-new":
                     continue
-                rows.append((f.file, f.cls, f.fn, a))
+                for g in alloc_owners(w, f):
+                    rows.append((g.file, g.cls, g.fn, a))
     for cls, mem in w.members.items():
         for name, typ, file in mem:
             if file in CORE_ALLOC_FILES:
@@ -240,10 +264,13 @@ def suspend_point_consts():
     src = open(os.path.join(REPO, "src", "cocls", "suspend_point.h")).read()
     m = re.search(r"inline_count\s*=\s*(\d+)", src)
     fs = set()
-    for e in re.findall(r"new\s+Ptr\s*\[([^\]]+)\]", src):
-        if re.fullmatch(r"[\s\d\(\)\*\+<]*(?:count[\s\d\(\)\*\+<]*)+", e):
+    # (the element type `Ptr` and the size variable `count` are private names: any ONE identifier in their place is accepted)
+    for e in re.findall(r"new\s+[A-Za-z_]\w*\s*\[([^\]]+)\]", src):
+        ids = set(re.findall(r"[A-Za-z_]\w*", e))
+        cnt = ids.pop() if len(ids) == 1 else "count"
+        if re.fullmatch(r"[\s\d\(\)\*\+<]*(?:%s[\s\d\(\)\*\+<]*)+" % re.escape(cnt), e):
             try:
-                v = eval(e.replace("count", "1024"), {"__builtins__": {}}, {})
+                v = eval(re.sub(r"\b%s\b" % re.escape(cnt), "1024", e), {"__builtins__": {}}, {})
             except Exception:
                 continue
             if v % 1024 == 0:
